@@ -265,6 +265,11 @@ RulesLoop:
 		r.Evaluate(phase, tx, transformationCache)
 		tx.Capture = false // we reset captures
 		usedRules++
+		if tx.RuleEngine == types.RuleEngineOff {
+			// the rule switched the engine off (ctl:ruleEngine=Off): no further rule is evaluated,
+			// the remaining rules of this phase included
+			break RulesLoop
+		}
 	}
 	tx.DebugLogger().Debug().
 		Int("phase", int(phase)).
